@@ -168,6 +168,16 @@ def pool_draws(**kw) -> Pool:
     )
 
 
+def pool_literals(**kw) -> Pool:
+    """numeric literals that need more than six significant digits, below every unary operator (one operator only: the
+    products of such numbers leave TLC's 32-bit integers)"""
+    return Pool(
+        betas=BETAS[:1], vars=VARS[:1],
+        leaves=[('num', '1234567/1000000'), ('num', '12345678'), ('num', '-31/8'), ('num', '1000001/1000000'), ('beta', 1)],
+        unops=['UnaryMinus', 'exp', 'log', 'logzero', 'sin', 'cos', 'bioNormalCdf'], binops=[], naryops=[], bound=100000000, **kw,
+    )
+
+
 def pool_mc(**kw) -> Pool:
     """formulas CONTAINING the Monte-Carlo operator (the shape of a mixed model: log(MonteCarlo(f(beta, draws)))):
     two free parameters, one column, two draw variables of different user-defined types; 3 observations x 3 draws"""
